@@ -271,6 +271,30 @@ func Record(test string, c any, format string, a ...any) {
 	lastFail[test] = &Failure{Test: test, Message: fmt.Sprintf(format, a...), Case: b}
 }
 
+// Begin notes the case that is about to run in a side file next to the shard file; End removes it.
+// If the test process dies while the file exists (a fatal runtime error of the code under test that
+// recover cannot stop: stack overflow, concurrent map writes), the driver turns the noted case into
+// a violation with a replay file instead of an inconclusive run.
+func Begin(test string, c any) {
+	out := os.Getenv("VERIF_OUT")
+	if out == "" {
+		return
+	}
+	b, err := json.Marshal(c)
+	if err != nil {
+		return
+	}
+	rec, _ := json.Marshal(&Failure{Test: test, Message: "the test process died while this case was running", Case: b})
+	_ = os.WriteFile(out+".current", rec, 0o644)
+}
+
+// End marks the case noted by Begin as finished.
+func End() {
+	if out := os.Getenv("VERIF_OUT"); out != "" {
+		_ = os.Remove(out + ".current")
+	}
+}
+
 // Failf records the failing case under the given test name and fails the
 // test. The last record per test name wins (rapid re-runs the shrunk case
 // last).
